@@ -44,6 +44,7 @@ const typesUniverseSrc = `
 access(all) entitlement E1
 access(all) entitlement E2
 access(all) entitlement E3
+access(all) entitlement E4
 access(all) struct interface SI {}
 access(all) struct interface SJ: SI {}
 access(all) struct interface SK {}
@@ -717,6 +718,9 @@ func genTypes(c *hx.Ctx) {
 	c.Emit("types", "trans", "r u va p Never", "r u va p AnyResource", "r u p AnyResource")
 	// the same failure in contravariant position (function parameter of the super-most type)
 	c.Emit("types", "trans", "f impure 1 r u p AnyResource p Void", "f impure 1 r u va p AnyResource p Void", "f impure 1 r u va p Never p Void")
+	// authorizations that overlap without being equal (same kind, same size, different members), at top
+	// level and below every covariant / contravariant constructor
+	g.authFamily(c)
 	// random pairs, related pairs, chain-biased triples
 	for i := 0; i < c.N; i++ {
 		a := typesFixAny(g.ty(3))
@@ -736,5 +740,152 @@ func genTypes(c *hx.Ctx) {
 			}
 		}
 	}
+	// random types in which one or all entitlement sets are replaced by an overlapping set of the same
+	// kind and size
+	for i := 0; i < c.N/6; i++ {
+		a, b := g.authSiblings(typesFixAny(g.ty(3)))
+		c.Emit("types", "sub", a, b)
+		c.Emit("types", "sub", b, a)
+		if g.r.Chance(40) {
+			c.Emit("types", "trans", a, b, typesFixAny(g.superOf(b, 3)), decls)
+		}
+		if g.r.Chance(20) {
+			c.Emit("types", "trans", a, b, a, decls)
+		}
+	}
 	_ = ast.AccessAll
+}
+
+// ---- overlapping entitlement sets
+
+var typesEnts4 = []string{"E1", "E2", "E3", "E4"}
+
+// every entitlement-set authorization over E1..E4 in canonical (sorted) form: all conjunctions, all
+// disjunctions of two or more
+func typesAuthSets() []string {
+	var out []string
+	for m := 1; m < 16; m++ {
+		var s []string
+		for i, e := range typesEnts4 {
+			if m>>i&1 == 1 {
+				s = append(s, e)
+			}
+		}
+		out = append(out, "c:"+strings.Join(s, ","))
+		if len(s) >= 2 {
+			out = append(out, "d:"+strings.Join(s, ","))
+		}
+	}
+	return out
+}
+
+func typesAuthSize(a string) int {
+	if a == "u" {
+		return 0
+	}
+	return strings.Count(a, ",") + 1
+}
+
+// same kind, same number of entitlements, different sets
+func typesAuthSameShape(a, b string) bool {
+	return a != b && a != "u" && b != "u" && a[0] == b[0] && typesAuthSize(a) == typesAuthSize(b)
+}
+
+var typesAuthWrappers = []func(r string) string{
+	func(r string) string { return "o " + r },
+	func(r string) string { return "va " + r },
+	func(r string) string { return "ca 2 " + r },
+	func(r string) string { return "d p String " + r },
+	func(r string) string { return "cap " + r },
+	func(r string) string { return "r u va " + r },
+	func(r string) string { return "o va cap " + r },
+	func(r string) string { return "f impure 1 " + r + " p Void" },
+	func(r string) string { return "f view 0 " + r },
+}
+
+func (g *typesGen) authFamily(c *hx.Ctx) {
+	auths := append([]string{"u"}, typesAuthSets()...)
+	targets := []string{g.u.encComp("S"), g.u.encComp("R"), "p Int", "in 1 " + g.u.encIface("SI")}
+	// top level: every pair of authorizations
+	for i, a := range auths {
+		for j, b := range auths {
+			t := targets[(i+j)%len(targets)]
+			c.Emit("types", "sub", "r "+a+" "+t, "r "+b+" "+t)
+		}
+	}
+	// nested: the pairs of the same kind and size
+	for wi, w := range typesAuthWrappers {
+		for i, a := range auths {
+			for j, b := range auths {
+				if !typesAuthSameShape(a, b) {
+					continue
+				}
+				t := targets[(wi+i+j)%len(targets)]
+				c.Emit("types", "sub", w("r "+a+" "+t), w("r "+b+" "+t))
+			}
+		}
+	}
+}
+
+// a random entitlement set of the given kind and size over E1..E4 (sorted)
+func (g *typesGen) authOf(kind byte, size int) string {
+	idx := []int{0, 1, 2, 3}
+	for i := 3; i > 0; i-- {
+		j := g.r.Intn(i + 1)
+		idx[i], idx[j] = idx[j], idx[i]
+	}
+	pick := idx[:size]
+	sort.Ints(pick)
+	var s []string
+	for _, i := range pick {
+		s = append(s, typesEnts4[i])
+	}
+	return string(kind) + ":" + strings.Join(s, ",")
+}
+
+// a different set of the same kind and size that shares at least one entitlement with `a` (size >= 2, <= 3)
+func (g *typesGen) authSibling(a string) string {
+	for {
+		b := g.authOf(a[0], typesAuthSize(a))
+		if b == a {
+			continue
+		}
+		for _, e := range strings.Split(b[2:], ",") {
+			if strings.Contains(a, e) {
+				return b
+			}
+		}
+	}
+}
+
+// the type with its authorizations widened to sets of two or three entitlements, and the same type with
+// one or all of these sets replaced by an overlapping sibling
+func (g *typesGen) authSiblings(enc string) (string, string) {
+	toks := strings.Fields(enc)
+	var at []int
+	for i := 0; i+1 < len(toks); i++ {
+		if toks[i] == "r" && (toks[i+1] == "u" || strings.HasPrefix(toks[i+1], "c:") || strings.HasPrefix(toks[i+1], "d:")) {
+			at = append(at, i+1)
+		}
+	}
+	if len(at) == 0 {
+		w := typesAuthWrappers[g.r.Intn(len(typesAuthWrappers))]
+		return g.authSiblings(w("r u " + enc))
+	}
+	a := append([]string{}, toks...)
+	for _, i := range at {
+		if n := typesAuthSize(a[i]); n < 2 || n > 3 {
+			a[i] = g.authOf("cd"[g.r.Intn(2)], 2+g.r.Intn(2))
+		}
+	}
+	b := append([]string{}, a...)
+	if g.r.Chance(30) {
+		for _, i := range at {
+			b[i] = g.authSibling(a[i])
+		}
+	} else {
+		i := at[g.r.Intn(len(at))]
+		b[i] = g.authSibling(a[i])
+	}
+	return strings.Join(a, " "), strings.Join(b, " ")
 }
